@@ -497,6 +497,14 @@ def window(prog, rep):
         shr = [s for s in ast.walk(st) if isinstance(s, ast.Assign) and isinstance(s.targets[0], ast.Name) and isinstance(s.value, ast.BinOp) and isinstance(s.value.op, ast.Mult)
                and any(isinstance(x, ast.Name) and x.id == s.targets[0].id for x in ast.walk(s.value))]
         if not shr:
+            # ... or through a temporary: t = c * X ... X = t
+            prods = {s_.targets[0].id: s_ for s_ in ast.walk(st) if isinstance(s_, ast.Assign) and isinstance(s_.targets[0], ast.Name) and isinstance(s_.value, ast.BinOp)
+                     and isinstance(s_.value.op, ast.Mult)}
+            for s_ in ast.walk(st):
+                if isinstance(s_, ast.Assign) and isinstance(s_.targets[0], ast.Name) and isinstance(s_.value, ast.Name) and s_.value.id in prods \
+                        and any(isinstance(x, ast.Name) and x.id == s_.targets[0].id for x in ast.walk(prods[s_.value.id].value)):
+                    shr.append(s_)
+        if not shr:
             continue
         n += 1
         name = shr[0].targets[0].id
@@ -678,12 +686,13 @@ def montecarlo(prog, rep):
         if den[0] == "call" and den[1] == G("len") and den[2]:
             smp = den[2][0]
         x2 = ("call", G("numpy.atleast_2d"), (("call", G("numpy.asarray_chkfinite"), (P("x"),), ()),), ())
-        ev = ("sub", x2, ("tuple", (("slice", NONE, NONE, NONE), G("numpy.newaxis"), ("slice", NONE, NONE, NONE))))
-        want = ("call", G("numpy.sum"), (("call", G("numpy.all"), (CMP("<=", smp, ev),), (("axis", ("const", -1)),)),), (("axis", ("const", -1)),))
+        # np.newaxis is None
+        wants = [("call", G("numpy.sum"), (("call", G("numpy.all"), (CMP("<=", smp, ("sub", x2, ("tuple", (("slice", NONE, NONE, NONE), ax_, ("slice", NONE, NONE, NONE))))),),
+                                            (("axis", ("const", -1)),)),), (("axis", ("const", -1)),)) for ax_ in (G("numpy.newaxis"), NONE)]
         from vstat.terms import top_alts as _ta
         choice = {a_ for _l, a_ in _ta(smp)} if smp is not None else set()
         right_way = all(not l_ or (("isnone", P("sample")) in l_) == (a_ == ("attr", SELF, "sample")) for l_, a_ in (_ta(smp) if smp is not None else []))
-        ok = smp is not None and num == want and choice == {P("sample"), ("attr", SELF, "sample")} and right_way
+        ok = smp is not None and num in wants and choice == {P("sample"), ("attr", SELF, "sample")} and right_way
     rep.check(ok, "C16.mc", f"{q}:fraction", fn.where(rets[-1]), "sum over samples of all_d(sample_d <= x_d) / len(sample), sample = supplied or self.sample", why)
     sp = prog.func(f"{TM}.sample")
     bs_ = builder(prog, sp, inline=False)
